@@ -2,6 +2,7 @@
   Props/C13.lean — property C13: RollingCounter is an exact sliding-window counter for any timestamp order.
   Property theorems only (helper lemmas live in CircuitProofs/Lemmas/RC.lean).
 -/
+import CircuitProofs.Props.C13Tie
 import CircuitModel.Spec.C13
 import CircuitProofs.Lemmas.RC
 namespace CM.Props.C13
